@@ -42,6 +42,23 @@ theorem only_session_cookie (ops : JarOps J U SC C) (c : Cache J) (s fresh : Sid
     (response ops c s fresh url sc).2 = if s = [] then some fresh else none := by
   rfl
 
+/-- … at the level of the response header the writer edits (regenerated slice of
+    `sessionResponseWriter.WriteHeader`): whatever `Set-Cookie` values the backend put there —
+    parseable by Go's cookie parser or not, any number of them — afterwards the field holds
+    exactly the session cookie if the request carried none, and nothing otherwise. -/
+theorem set_cookie_header_exact (noSession : Bool) (sc : Bytes) (parsed : Nat) (h : Hdr) :
+    Hdr.Values (sessions_writeHeaderEdits noSession sc parsed h) [83,101,116,45,67,111,111,107,105,101] =
+      if noSession then [sc] else [] := by
+  cases noSession <;>
+    simp [sessions_writeHeaderEdits, Id.run, pure, Hdr.Values, Hdr.Del, Hdr.Add, Hdr.values_del_self]
+
+/-- every other response header field is left alone -/
+theorem other_response_headers_kept (noSession : Bool) (sc : Bytes) (parsed : Nat) (h : Hdr) (k : Bytes)
+    (hk : k ≠ Go.canon [83,101,116,45,67,111,111,107,105,101]) :
+    Hdr.values (sessions_writeHeaderEdits noSession sc parsed h) k = Hdr.values h k := by
+  cases noSession <;>
+    simp [sessions_writeHeaderEdits, Id.run, pure, Hdr.Del, Hdr.Add, Hdr.values_del_ne _ _ _ hk, Hdr.values_add_ne _ _ _ _ hk]
+
 /-- attributes of that cookie (regenerated from the literal in sessions.go): Path=/,
     HttpOnly, Secure unless the test override is set -/
 theorem session_cookie_attrs :
